@@ -8,6 +8,7 @@
 package main
 
 import (
+	"crypto/sha1"
 	"encoding/json"
 	"flag"
 	"fmt"
@@ -149,6 +150,10 @@ func main() {
 	enc := json.NewEncoder(os.Stdout)
 	real := hashring.VerifDefaultHash()
 	for ci := 0; ci < *n; ci++ {
+		if ci%50 == 3 {
+			largeCase(r, real, enc)
+			continue
+		}
 		var h hashring.Hash
 		var htag string
 		replicas := []int{1, 1, 2, 3, 5, 8}[r.intn(6)]
@@ -304,7 +309,7 @@ func main() {
 		for i, k := range tk {
 			te[i] = fmt.Sprintf("(%s, %d%%N)", bs(k), tbl[k])
 		}
-		coq := fmt.Sprintf("{| c_replicas := %d%%nat; c_probes := %d%%nat; c_tbl := [%s]; c_ops := [%s]; c_obs := [%s] |}",
+		coq := fmt.Sprintf("Build_case %d%%nat %d%%nat [%s] [] [%s] [%s]",
 			replicas, probes, strings.Join(te, "; "), wrap(ops), wrap(obs))
 		var tl []string
 		for t := range tags {
@@ -358,4 +363,207 @@ func pretty(res string) string {
 		b = append(b, byte(x))
 	}
 	return fmt.Sprintf("%q", string(b))
+}
+
+// largeCase: membership histories on a LARGE ring in the configuration felix runs (100 replicas, 1 probe,
+// value = hostname): 11-40 members (1100-4000 virtual nodes), Lookups interleaved at arbitrary points,
+// batches of pending inserts/removes between two lookup points (remove+insert pairs, several of each,
+// remove-then-reinsert of the same member), and at every lookup point a sample of addresses asked of the
+// ring under test and of a ring built fresh (shuffled order) from the current members.
+func largeCase(r *rng, real hashring.Hash, enc *json.Encoder) {
+	h, htag := real, "hash:xxh3"
+	switch r.intn(6) {
+	case 0:
+		m := uint64(5 + r.intn(40))
+		h, htag = func(b []byte) uint64 { return (real(b) % m) * (maxU/m + 1) }, "hash:spread"
+	case 1:
+		m := uint64(64 + r.intn(2000))
+		h, htag = func(b []byte) uint64 { return maxU - real(b)%m }, "hash:high"
+	}
+	tbl := map[string]uint64{}
+	rec := func(b []byte) uint64 {
+		v := h(b)
+		tbl[string(b)] = v
+		return v
+	}
+	mk := func() *hashring.Ring[string] {
+		return hashring.New[string](hashring.WithHash(rec), hashring.WithReplicas(100))
+	}
+	ring := mk()
+	cur := map[string]string{}
+	var gone []string // removed members, candidates for re-joining
+	next := 0
+	tags := map[string]bool{htag: true, "large-ring": true}
+	var ops, obs, sample []string
+	ins := func(k string) {
+		ring.Insert(k, k)
+		cur[k] = k
+		ops = append(ops, fmt.Sprintf("OInsert %s %s", bs(k), bs(k)))
+		obs = append(obs, "BUnit")
+		sample = append(sample, fmt.Sprintf("Insert(%q)", k))
+	}
+	rem := func(k string) {
+		ring.Remove(k)
+		delete(cur, k)
+		ops = append(ops, fmt.Sprintf("ORemove %s", bs(k)))
+		obs = append(obs, "BUnit")
+		sample = append(sample, fmt.Sprintf("Remove(%q)", k))
+	}
+	fresh := func() {
+		ks := sortedKeys(cur)
+		for i := len(ks) - 1; i > 0; i-- {
+			x := r.intn(i + 1)
+			ks[i], ks[x] = ks[x], ks[i]
+		}
+		fr := mk()
+		fm := make([]string, 0, len(ks))
+		for _, mkey := range ks {
+			fr.Insert(mkey, cur[mkey])
+			fm = append(fm, bs(mkey))
+		}
+		fms := strings.Join(fm, "; ")
+		nkeys := 6 + r.intn(5)
+		diff := 0
+		for i := 0; i < nkeys; i++ {
+			lk := fmt.Sprintf("10.%d.%d.%d", r.intn(4), r.intn(256), r.intn(256))
+			if r.intn(8) == 0 {
+				lk = fmt.Sprintf("fd00::%x", r.intn(65536))
+			}
+			res := look(ring, lk)
+			fres := look(fr, lk)
+			if res != fres {
+				diff++
+			}
+			ops = append(ops, fmt.Sprintf("OLookup %s", bs(lk)))
+			obs = append(obs, fmt.Sprintf("BLook %s %s (self_map [%s])", res, fres, fms))
+		}
+		sample = append(sample, fmt.Sprintf("%d Lookups on %d members (%d virtual nodes): %d differ from the fresh ring", nkeys, len(ks), 100*len(ks), diff))
+	}
+	newName := func() string {
+		if len(gone) > 0 && r.intn(3) == 0 {
+			i := r.intn(len(gone))
+			k := gone[i]
+			gone = append(gone[:i], gone[i+1:]...)
+			tags["batch:rejoin-removed-member"] = true
+			return k
+		}
+		next++
+		return fmt.Sprintf("n%d", next)
+	}
+	// initial load, lookups possibly in the middle of it
+	m0 := 11 + r.intn(30)
+	for i := 0; i < m0; i++ {
+		ins(newName())
+		if r.intn(12) == 0 {
+			fresh()
+			tags["lookup-during-load"] = true
+		}
+	}
+	fresh()
+	nb := 6 + r.intn(6)
+	for b := 0; b < nb; b++ {
+		nr, ni := r.intn(4), r.intn(4)
+		if len(cur) <= 12 {
+			nr = r.intn(2)
+			if ni == 0 {
+				ni = 1
+			}
+		}
+		if len(cur) >= 40 {
+			ni = r.intn(2)
+		}
+		if nr == 0 && ni == 0 {
+			ni, nr = 1, 1
+		}
+		switch {
+		case nr > 0 && ni > 0:
+			tags["batch:remove+insert"] = true
+		case nr > 0:
+			tags["batch:remove-only"] = true
+		default:
+			tags["batch:insert-only"] = true
+		}
+		if nr+ni > 2 {
+			tags["batch:multi"] = true
+		}
+		// the batch, removes and inserts in random order
+		acts := make([]byte, 0, nr+ni)
+		for i := 0; i < nr; i++ {
+			acts = append(acts, 'r')
+		}
+		for i := 0; i < ni; i++ {
+			acts = append(acts, 'i')
+		}
+		for i := len(acts) - 1; i > 0; i-- {
+			x := r.intn(i + 1)
+			acts[i], acts[x] = acts[x], acts[i]
+		}
+		for _, a := range acts {
+			if a == 'r' {
+				ks := sortedKeys(cur)
+				k := ks[r.intn(len(ks))]
+				rem(k)
+				if r.intn(5) == 0 {
+					ins(k) // remove then re-insert the same member before any Lookup
+					tags["batch:remove-then-reinsert-same"] = true
+				} else {
+					gone = append(gone, k)
+				}
+			} else {
+				ins(newName())
+			}
+		}
+		if r.intn(6) == 0 {
+			ops = append(ops, "OLen")
+			obs = append(obs, fmt.Sprintf("BLen (%d)%%Z", ring.Len()))
+		}
+		fresh()
+	}
+	// hash table: calls of the form saltedHash(name, 0..k-1) (checked against the recorded raw input bytes)
+	// are grouped by name; every other recorded call is emitted raw
+	names := map[string]bool{}
+	for k := range tbl {
+		if len(k) >= 5 {
+			names[k[:len(k)-5]] = true
+		}
+	}
+	var nl []string
+	for k := range names {
+		nl = append(nl, k)
+	}
+	sort.Strings(nl)
+	var ge []string
+	for _, name := range nl {
+		var hs []string
+		for i := 0; ; i++ {
+			raw := string(salt(name, i))
+			v, ok := tbl[raw]
+			if !ok {
+				break
+			}
+			hs = append(hs, fmt.Sprintf("%d", v))
+			delete(tbl, raw)
+		}
+		if len(hs) > 0 {
+			ge = append(ge, fmt.Sprintf("(%s, [%s]%%N)", bs(name), strings.Join(hs, ";")))
+		}
+	}
+	tk := make([]string, 0, len(tbl))
+	for k := range tbl {
+		tk = append(tk, k)
+	}
+	sort.Strings(tk)
+	te := make([]string, len(tk))
+	for i, k := range tk {
+		te[i] = fmt.Sprintf("(%s, %d%%N)", bs(k), tbl[k])
+	}
+	coq := fmt.Sprintf("Build_case 100%%nat 1%%nat [%s] [%s] [%s] [%s]", strings.Join(te, "; "), strings.Join(ge, "; "), wrap(ops), wrap(obs))
+	var tl []string
+	for t := range tags {
+		tl = append(tl, t)
+	}
+	sort.Strings(tl)
+	tl = append(tl, "replicas:100", "probes:1")
+	_ = enc.Encode(line{Coq: coq, NT: true, Key: fmt.Sprintf("%x", sha1.Sum([]byte(coq))),
+		Sample: map[string]any{"hash": htag, "replicas": 100, "probes": 1, "trace": sample}, Tags: tl})
 }
